@@ -6,7 +6,7 @@ import ast
 
 from ..astutil import (
     FuncNode, call_name, calls_in, const_str, dotted, guard_atoms, lexical_guards, nested_functions,
-    subscript_stores, unparse, walk_local,
+    subscript_stores, test_atoms, unparse, walk_local,
 )
 from ..cfg import no_exc
 from ..oracles import load, python_mutators
@@ -78,6 +78,33 @@ def r1(ctx):
                                    f"modified and flush does not write it", cls.loc)
 
 
+def _changed_depends_on(f, g, bcalls, bnodes, changed):
+    """When self.changed() is conditional after the builtin ran: say on what.  A test of the builtin's RESULT
+    (or of the arguments) is never a proof that the builtin did not mutate -- `dict.pop(k, d) is d` also holds
+    for a present key whose value is d."""
+    pm = f.module.parents()
+    resvars = set()
+    for _, c in bcalls:
+        par = pm.get(c)
+        if isinstance(par, (ast.Assign, ast.AnnAssign)):
+            tg = par.targets[0] if isinstance(par, ast.Assign) else par.target
+            if isinstance(tg, ast.Name):
+                resvars.add(tg.id)
+    after = g.reachable(bnodes, edge_ok=no_exc)
+    tests = []
+    for ch in changed:
+        for t, pol in g.edge_guards(ch):
+            tn = [i for i in g.nodes_containing(t) if i in after]
+            if tn and t not in tests:
+                tests.append(t)
+    if not tests:
+        return ""
+    names = {n.id for t in tests for n in ast.walk(t) if isinstance(n, ast.Name)}
+    what = "the builtin's result" if names & resvars else "a value that is not the pre-mutation state of the collection"
+    return ("changed() is decided after the mutation by `" + " / ".join(unparse(t) for t in tests) + f"`, a test of {what}: "
+            "it cannot tell 'nothing was removed/added' from 'the affected member equals the argument'")
+
+
 @R.rule("C49-R2", floor=33, template="T-PATH",
         desc="each override calls the builtin implementation (or an overridden sibling mutator) and every "
              "normal path after it passes self.changed(); value-returning mutators pass the builtin's "
@@ -102,9 +129,14 @@ def r2(ctx):
                 bnodes = [i for _, c in bcalls for i in g.nodes_containing(c)]
                 w = g.must_pass(bnodes, [g.exit], changed, edge_ok=no_exc)
                 if w is not None:
-                    problems.append("a normal path leaves after the builtin mutation without self.changed(): " + " -> ".join(w[-3:]))
+                    msg = "a normal path leaves after the builtin mutation without self.changed(): " + " -> ".join(w[-3:])
+                    dep = _changed_depends_on(f, g, bcalls, bnodes, changed)
+                    if dep:
+                        msg += "; " + dep
+                    problems.append(msg)
                 if m in rv[t]:
                     ok = False
+                    after = g.reachable(bnodes, edge_ok=no_exc)
                     for n, c in bcalls:
                         par = f.module.parents().get(c)
                         if isinstance(par, ast.Return):
@@ -112,7 +144,10 @@ def r2(ctx):
                         elif isinstance(par, (ast.Assign, ast.AnnAssign)):
                             tg = par.targets[0] if isinstance(par, ast.Assign) else par.target
                             if isinstance(tg, ast.Name):
-                                rets = [r for r in walk_local(f.node) if isinstance(r, ast.Return)]
+                                # only the returns that can follow the builtin call owe its result (an early
+                                # `return default` taken before anything was mutated is none of this clause's business)
+                                rets = [r for r in walk_local(f.node) if isinstance(r, ast.Return)
+                                        and any(i in after for i in g.nodes_for(r))]
                                 ok = bool(rets) and all(isinstance(r.value, ast.Name) and r.value.id == tg.id for r in rets)
                     if not ok:
                         problems.append(f"{t}.{m} returns the affected member but the override does not return the builtin's result")
@@ -335,6 +370,272 @@ def r4(ctx):
               "coerce=True", aw.loc)
 
 
+# ----------------------------------------------------------------------------- C49-R5: propagate reaches ALL descendants
+EVENTS_MOD = "orm/events.py"
+REFEED = {"extend", "append", "extendleft", "appendleft", "update", "add"}
+POPS = {"pop", "popleft"}
+
+
+def _in(node, region):
+    return any(n is node for n in ast.walk(region))
+
+
+def _walk_kind_of_def(ctx, f, flag_truthy=None, _depth=0):
+    """Classify the descendant walk implemented by function/property `f`:
+    ('transitive', how) | ('direct', why) | ('pruned', why) | (None, why-not-understood).
+    Recognised closures: a worklist (`while S: v = S.pop(); ...; S.extend(<children of v>)`), self-recursion on every
+    child (`for c in children: ...; yield from <c'>.f(True)`), or a loop over something that is itself a closure."""
+    ctx.functions_analysed.add(f.key)
+    fn = f.node
+    g = ctx.cfg(f)
+    pm = f.module.parents()
+    # (1) worklist
+    for w in [n for n in walk_local(fn) if isinstance(n, ast.While)]:
+        r = _worklist(ctx, f, g, w)
+        if r[0] is not None:
+            return r
+    # (2) self recursion
+    flag = None
+    rec = [c for c in calls_in(fn) if isinstance(c.func, ast.Attribute) and c.func.attr == f.name
+           or isinstance(c.func, ast.Name) and c.func.id == f.name]
+    if rec:
+        probs = []
+        for c in rec:
+            nid = [i for i in g.nodes_containing(c)]
+            if not nid:
+                return (None, "recursive call not on the CFG")
+            for a, pol in guard_atoms(g.edge_guards(nid[0])):
+                if a in f.params and pol:
+                    flag = a
+                    continue
+                probs.append(f"`{a}`" if pol else f"not `{a}`")
+            # the flag handed down must stay truthy
+            for i, a in enumerate(c.args):
+                pi = i + (1 if f.cls is not None and isinstance(c.func, ast.Attribute) else 0)
+                if pi < len(f.params) and f.params[pi] == flag:
+                    if not ((isinstance(a, ast.Constant) and a.value is True) or (isinstance(a, ast.Name) and a.id == flag)):
+                        return ("direct", f"the recursive call passes {flag}={unparse(a)}: the walk stops one level further down")
+        if flag is not None and flag_truthy is not True:
+            return ("direct", f"recursion is switched by `{flag}` and the caller does not pass a true constant")
+        if probs:
+            return ("pruned", f"the descent into a child's own subclasses happens only when " + " and ".join(sorted(set(probs)))
+                    + ": a child that fails the test hides ALL of its descendants, although they may well pass it")
+        return ("transitive", f"recursion on every child" + (f" under {flag}=True" if flag else ""))
+    # (3) a loop over another closure
+    loops = [n for n in walk_local(fn) if isinstance(n, (ast.For, ast.comprehension))]
+    kinds = []
+    for lp in loops:
+        k = _iter_kind(ctx, f, lp.iter, flag_truthy, _depth + 1)
+        kinds.append(k)
+    for k in kinds:
+        if k[0] == "transitive":
+            return k
+    for k in kinds:
+        if k[0] in ("direct", "pruned"):
+            return k
+    return (None, "no worklist, recursion or loop over a known closure")
+
+
+def _worklist(ctx, f, g, w):
+    t = w.test
+    if isinstance(t, ast.Call) and call_name(t) == "len" and t.args:
+        t = t.args[0]
+    if not isinstance(t, ast.Name):
+        return (None, "while test is not the worklist")
+    S = t.id
+    popped = None
+    for n in ast.walk(w):
+        if isinstance(n, ast.Assign) and isinstance(n.value, ast.Call) and isinstance(n.value.func, ast.Attribute) \
+                and n.value.func.attr in POPS and isinstance(n.value.func.value, ast.Name) and n.value.func.value.id == S \
+                and isinstance(n.targets[0], ast.Name):
+            popped = n.targets[0].id
+    if popped is None:
+        return (None, "no element is popped from the worklist")
+    refeeds = [c for c in calls_in(w) if isinstance(c.func, ast.Attribute) and c.func.attr in REFEED
+               and isinstance(c.func.value, ast.Name) and c.func.value.id == S
+               and c.args and any(isinstance(x, ast.Name) and x.id == popped for x in ast.walk(c.args[0]))]
+    if not refeeds:
+        return ("direct", f"the worklist `{S}` is never re-fed with the children of the popped element `{popped}`: "
+                          f"only the classes seeded before the loop are visited")
+    seen_sets = {c.func.value.id for c in calls_in(w) if isinstance(c.func, ast.Attribute) and c.func.attr == "add"
+                 and isinstance(c.func.value, ast.Name) and c.func.value.id != S}
+    bad = []
+    for c in refeeds:
+        for nid in g.nodes_containing(c)[:1]:
+            for tst, pol in g.edge_guards(nid):
+                if not _in(tst, w) or tst is w.test:
+                    continue
+                for a, apol in test_atoms(tst, pol):
+                    if not apol and any(a == f"{popped} in {sname}" for sname in seen_sets):
+                        continue
+                    bad.append(f"`{a}`" if apol else f"not `{a}`")
+    if bad:
+        return ("pruned", "the children of a visited class are queued only when " + " and ".join(sorted(set(bad)))
+                + ": a class that fails the test hides all of its descendants")
+    return ("transitive", f"worklist `{S}` re-fed with the children of every popped element")
+
+
+def _iter_kind(ctx, f, it, flag_truthy=None, _depth=0):
+    """Classify an iterable expression used to reach descendants from inside function `f`."""
+    if _depth > 4:
+        return (None, "resolution too deep")
+    ix = ctx.index
+    if isinstance(it, ast.Name):
+        vals = [(n.value, n) for n in walk_local(f.node) if isinstance(n, ast.Assign)
+                and any(isinstance(tg, ast.Name) and tg.id == it.id for tg in n.targets)]
+        if not vals:
+            return (None, f"`{it.id}` is not a local with a visible definition")
+        if flag_truthy is not None:
+            # `if recursive: xs = <closure> else: xs = <direct>`: keep the definitions the caller's flag selects
+            pm = f.module.parents()
+            keep = []
+            for v, st in vals:
+                atoms = guard_atoms(lexical_guards(pm, st, stop=f.node))
+                if any(a in f.params and pol != flag_truthy for a, pol in atoms):
+                    continue
+                keep.append((v, st))
+            vals = keep or vals
+        ks = [_iter_kind(ctx, f, v, flag_truthy, _depth + 1) for v, _ in vals]
+        for k in ks:
+            if k[0] != "transitive":
+                return k
+        return ks[0]
+    if isinstance(it, ast.Call):
+        nm = call_name(it) or ""
+        last = nm.split(".")[-1]
+        if last == "__subclasses__":
+            return ("direct", f"`{unparse(it)}` yields the direct subclasses only")
+        if last in ("list", "tuple", "iter", "reversed", "sorted", "set") and it.args:
+            return _iter_kind(ctx, f, it.args[0], flag_truthy, _depth + 1)
+        tgt = ix.resolve(f.module, nm) if nm else None
+        cands = []
+        if tgt is not None and hasattr(tgt, "node") and isinstance(getattr(tgt, "node"), FuncNode):
+            cands = [tgt]
+        elif isinstance(it.func, ast.Attribute):
+            cands = [c.methods[last] for c in ix.all_classes() if last in c.methods and not c.methods[last].type_only
+                     and c.module.relpath.startswith(("orm/", "event/", "util/"))]
+        if not cands:
+            return (None, f"`{unparse(it)}`: callee not found")
+        out = None
+        for cf in cands:
+            ft = None
+            for i, a in enumerate(it.args):
+                if isinstance(a, ast.Constant) and isinstance(a.value, bool):
+                    ft = a.value
+            for kwd in it.keywords:
+                if isinstance(kwd.value, ast.Constant) and isinstance(kwd.value.value, bool):
+                    ft = kwd.value.value
+            k = _walk_kind_of_def(ctx, cf, ft, _depth + 1)
+            if k[0] == "direct" and ft is False:
+                k = ("direct", f"`{unparse(it)}` asks {cf.qualname} for a non-recursive walk: direct subclasses only")
+            k = (k[0], k[1], cf.key)
+            if k[0] != "transitive":
+                return k
+            out = k
+        return out
+    if isinstance(it, ast.Attribute):
+        cands = [c.methods[it.attr] for c in ix.all_classes() if it.attr in c.methods and not c.methods[it.attr].type_only
+                 and c.module.relpath.startswith(("orm/", "event/", "util/"))]
+        if not cands:
+            return (None, f"`{unparse(it)}`: no definition of .{it.attr} found")
+        out = None
+        for cf in cands:
+            k = _walk_kind_of_def(ctx, cf, None, _depth + 1)
+            k = (k[0], k[1], cf.key)
+            if k[0] != "transitive":
+                return k
+            out = k
+        return out
+    return (None, f"`{unparse(it)}`: iterable not understood")
+
+
+@R.rule("C49-R5", floor=8, template="T-SIBLING",
+        desc="propagate=True reaches ALL descendants: every ORM Events._listen hook that takes `propagate` registers the "
+             "listener, under `propagate`, on a transitive-closure walk of the target's subclasses (recursive "
+             "subclass_managers / self_and_descendants / a re-fed worklist / issubclass at dispatch time), and every "
+             "walker they use really is a closure (re-feeds or recurses on EVERY child, not only on the reported ones)")
+def r5(ctx):
+    ix = ctx.index
+    m = ix.module(EVENTS_MOD)
+    pm = m.parents()
+    fam = [f for f in ix.all_functions(m) if f.name == "_listen" and "propagate" in f.params and not f.type_only]
+    ctx.require(len(fam) >= 4, f"only {len(fam)} _listen hooks with a propagate parameter found in {EVENTS_MOD}")
+    walkers = {}
+    for f in fam:
+        ctx.functions_analysed.add(f.key)
+        key = f"{f.key}:propagate-walk"
+        g = ctx.cfg(f)
+        loops = []
+        for n in walk_local(f.node):
+            if isinstance(n, (ast.For, ast.While)):
+                atoms = guard_atoms(lexical_guards(pm, n, stop=f.node))
+                if ("propagate", True) in atoms:
+                    loops.append(n)
+        if not loops:
+            # dispatch-time filter: issubclass() under `propagate` inside the wrapper
+            hit = False
+            for nf in nested_functions(f.node).values():
+                for c in calls_in(nf):
+                    if call_name(c) == "issubclass":
+                        par = pm.get(c)
+                        while par is not None and not isinstance(par, (ast.If, ast.IfExp)):
+                            par = pm.get(par)
+                        if par is not None and ("propagate", True) in test_atoms(par.test, True):
+                            hit = True
+            ctx.check(hit, key, "the hook takes `propagate` but neither walks the target's subclasses under it nor filters "
+                                "with issubclass() at dispatch time: the flag has no effect, subclasses never see the listener",
+                      "issubclass(target_cls, listen_cls) at dispatch time (transitive by definition)", f.loc)
+            continue
+        outer = [l for l in loops if not any(l is not o and _in(l, o) for o in loops)]
+        res = None
+        for lp in outer:
+            regs = [c for c in calls_in(lp) if isinstance(c.func, ast.Attribute) and c.func.attr in ("base_listen", "listen")
+                    and "with_dispatch_target" in unparse(c.func.value)]
+            if not regs:
+                continue
+            if isinstance(lp, ast.While):
+                k = _worklist(ctx, f, g, lp)
+            else:
+                k = _iter_kind(ctx, f, lp.iter, None)
+            res = (lp, k)
+            break
+        if res is None:
+            ctx.violation(key, "under `propagate` no loop registers the listener on the subclasses' dispatch targets "
+                               "(event_key.with_dispatch_target(<sub>).base_listen/listen)", f.loc)
+            continue
+        lp, k = res
+        src = "while-worklist" if isinstance(lp, ast.While) else unparse(lp.iter)
+        ctx.require(k[0] is not None, f"{key}: descendant walk `{src}` not understood: {k[1]}")
+        if len(k) > 2:
+            walkers[k[2]] = None
+        if k[0] == "transitive":
+            ctx.ok(key, f"{src}: {k[1]}")
+        elif k[0] == "direct" or len(k) < 3:
+            ctx.violation(key, f"propagate=True registers the listener on `{src}` only -- {k[1]}; a listener installed after the "
+                               f"hierarchy exists (ext.mutable installs load/refresh/pickle/unpickle at mapper_configured time) "
+                               f"never reaches grandchild classes: their reloaded / unpickled values are not coerced or linked "
+                               f"to the parent and in-place changes are never flushed", f.loc)
+        else:
+            # the hook is fine, the walker it relies on is not: reported once, on the walker
+            ctx.ok(key, f"{src} (walker reported separately)")
+    # the walkers themselves (plus util.walk_subclasses, used by the class-level dispatch of event/attr.py)
+    ws = ix.resolve(ix.module("event/attr.py"), "util.walk_subclasses")
+    ctx.require(ws is not None and hasattr(ws, "node"), "util.walk_subclasses not found")
+    walkers[ws.key] = None
+    for c in ix.all_classes():
+        for nm in ("subclass_managers", "self_and_descendants"):
+            if nm in c.methods and c.module.relpath.startswith("orm/") and not c.methods[nm].type_only:
+                walkers[c.methods[nm].key] = None
+    for wk in sorted(walkers):
+        wf = ix.func(wk)
+        k = _walk_kind_of_def(ctx, wf, True)
+        ctx.require(k[0] is not None, f"{wk}: descendant walker not understood: {k[1]}")
+        ctx.check(k[0] == "transitive", f"{wk}:closure",
+                  f"{wf.qualname} does not visit every descendant: {k[1]} (e.g. an `__abstract__` / unmapped intermediate class "
+                  f"between two mapped classes); propagate=True listeners installed later -- ext.mutable's load/refresh/"
+                  f"pickle/unpickle hooks -- never reach the classes below it", k[1], wf.loc)
+
+
 # ---------------------------------------------------------------------------------- self-test
 R.mutant("dict-popitem-override-removed", MUT,
          sub("    def popitem(self) -> Tuple[_KT, _VT]:\n        result = dict.popitem(self)\n        self.changed()\n        return result\n\n", ""),
@@ -390,3 +691,46 @@ R.mutant("benign-extra-listener", MUT,
          sub("        event.listen(parent_cls, \"pickle\", pickle, raw=True, propagate=True)\n",
              "        event.listen(parent_cls, \"pickle\", pickle, raw=True, propagate=True)\n        event.listen(parent_cls, \"expire\", load_attrs, raw=True, propagate=True)\n"),
          None)
+
+# ---- adversarial seeds (str-s)
+POP = "            result = dict.pop(self, *arg)\n            self.changed()\n            return result\n"
+R.mutant("seed1-dict-pop-changed-unless-default-came-back", MUT,
+         sub(POP, "            result = dict.pop(self, *arg)\n            if len(arg) < 2 or result is not arg[1]:\n"
+                  "                self.changed()\n            return result\n"), "C49-R2")
+R.mutant("list-pop-changed-only-if-result-truthy", MUT,
+         sub("        result = list.pop(self, *arg)\n        self.changed()\n        return result\n",
+             "        result = list.pop(self, *arg)\n        if result is not None:\n            self.changed()\n        return result\n"), "C49-R2")
+# the sound version of the same optimisation: decided on the PRE-mutation state, before the builtin runs
+R.mutant("benign-dict-pop-absent-key-returns-default-early", MUT,
+         sub(POP, "            if len(arg) > 1 and arg[0] not in self:\n                return arg[1]\n"
+                  "            result = dict.pop(self, *arg)\n            self.changed()\n            return result\n"), None)
+EV = "orm/events.py"
+R.mutant("seed2-instance-listen-propagates-to-direct-subclasses-only", EV,
+         sub("            for mgr in target.subclass_managers(True):\n", "            for mgr in target.subclass_managers(False):\n"), "C49-R5")
+R.mutant("attribute-listen-propagates-to-direct-subclasses-only", EV,
+         sub("            for mgr in manager.subclass_managers(True):", "            for mgr in manager.subclass_managers(False):"), "C49-R5")
+R.mutant("instance-listen-walks-dunder-subclasses", EV,
+         sub("            for mgr in target.subclass_managers(True):\n                event_key.with_dispatch_target(mgr).base_listen(propagate=True)\n",
+             "            for sub_ in target.class_.__subclasses__():\n                mgr = instrumentation.opt_manager_of_class(sub_)\n"
+             "                if mgr is not None:\n                    event_key.with_dispatch_target(mgr).base_listen(propagate=True)\n"), "C49-R5")
+R.mutant("hold-listen-worklist-not-refed", EV,
+         sub("                    subclass = stack.pop(0)\n                    stack.extend(subclass.__subclasses__())\n",
+             "                    subclass = stack.pop(0)\n"), "C49-R5")
+R.mutant("hold-listen-worklist-refed-only-for-resolved", EV,
+         sub("                    subclass = stack.pop(0)\n                    stack.extend(subclass.__subclasses__())\n                    subject = target.resolve(subclass)\n                    if subject is not None:\n",
+             "                    subclass = stack.pop(0)\n                    subject = target.resolve(subclass)\n                    if subject is not None:\n                        stack.extend(subclass.__subclasses__())\n"), "C49-R5")
+R.mutant("mapper-descendants-worklist-not-refed", "orm/mapper.py",
+         sub("            descendants.append(item)\n            stack.extend(item._inheriting_mappers)\n", "            descendants.append(item)\n"), "C49-R5")
+R.mutant("subclass-managers-recursion-not-recursive", "orm/instrumentation.py",
+         sub("                    yield from mgr.subclass_managers(True)\n", "                    yield from mgr.subclass_managers(False)\n"), "C49-R5")
+R.mutant("walk-subclasses-not-refed", "util/langhelpers.py",
+         sub("            seen.add(cls)\n        stack.extend(cls.__subclasses__())\n        yield cls\n", "            seen.add(cls)\n        yield cls\n"), "C49-R5")
+R.mutant("benign-hold-listen-rename-worklist", EV,
+         sub("                stack = list(target.class_.__subclasses__())\n                while stack:\n                    subclass = stack.pop(0)\n                    stack.extend(subclass.__subclasses__())\n",
+             "                todo = list(target.class_.__subclasses__())\n                while todo:\n                    subclass = todo.pop(0)\n                    todo.extend(subclass.__subclasses__())\n"), None)
+R.mutant("benign-instance-listen-materialises-walk", EV,
+         sub("            for mgr in target.subclass_managers(True):\n", "            managers = list(target.subclass_managers(True))\n            for mgr in managers:\n"), None)
+# the repair of the C49-R5 finding (walk every class, report the managed ones) must be accepted
+R.mutant("benign-subclass-managers-walks-whole-hierarchy", "orm/instrumentation.py",
+         sub("        for cls in self.class_.__subclasses__():\n            mgr = opt_manager_of_class(cls)\n            if mgr is not None and mgr is not self:\n                yield mgr\n                if recursive:\n                    yield from mgr.subclass_managers(True)\n",
+             "        if recursive:\n            classes = util.walk_subclasses(self.class_)\n        else:\n            classes = self.class_.__subclasses__()\n        for cls in classes:\n            mgr = opt_manager_of_class(cls)\n            if mgr is not None and mgr is not self:\n                yield mgr\n"), None)
